@@ -48,6 +48,8 @@ def main(argv):
         elif argv[i] == "--in-repo":
             in_repo = True
             i += 1
+        elif argv[i] == "--skip-tests":
+            i += 1
         else:
             names.append(argv[i])
             i += 1
